@@ -164,7 +164,7 @@ func init() {
 				{S: c13Scenario("entitlement-after-failed-handover", h5), Opt: opt}},
 			// a message takes effect only for its entitled signer: anything the model rejects for lack of entitlement must be rejected,
 			// a wrong key must never be accepted, and a rejected attempt leaves stores and balances untouched
-			Owns:        ownsAny("tx.accept_unexpected:", "tx.nonatomic", "bal:"),
+			Owns:        ownsAny("tx.accept_unexpected:", "tx.entitled_signer_refused:", "tx.nonatomic", "bal:"),
 			Assumptions: []string{"the governance authority cannot sign transactions; parameter updates by the authority itself are exercised through real proposals in C16"},
 		}
 	}
